@@ -10,10 +10,10 @@ Open Scope string_scope.
 (* ---- the model's prediction ------------------------------------------------------------------- *)
 Inductive predicted := PredValue (v : Z) | PredFailed (ids : list string) | PredOther (why : string).
 
-Definition model_predict (c : case) : predicted :=
-  match parse_operand (c_tokens c) with
+Definition predict (tokens : list token) (syms : list (string * Z)) (dot : Z) : predicted :=
+  match parse_operand tokens with
   | POk t =>
-      match meval enc_string (fun s => assoc s (c_syms c)) (c_dot c) t with
+      match meval enc_string (fun s => assoc s syms) dot t with
       | Ok (v, []) => match dword_of v with Some w => PredValue w | None => PredFailed ["value-out-of-bounds"] end
       | Ok (v, errs) => match dword_of v with Some _ => PredFailed errs | None => PredFailed ("value-out-of-bounds" :: errs) end
       | Err ids => PredFailed ids
@@ -26,12 +26,27 @@ Definition model_predict (c : case) : predicted :=
   | PFuel => PredOther "fuel"
   end.
 
-Definition corr (c : case) : bool :=
-  list_eqb token_eqb (print_min (c_tree c)) (c_tokens c) &&
-  match model_predict c, c_obs c with
+Definition matches (p : predicted) (o : observed) : bool :=
+  match p, o with
   | PredValue v, ObsValue w => Z.eqb v w
   | PredFailed ids, ObsFailed ids' => same_set ids ids'
   | _, _ => false
   end.
+
+Definition model_predict (c : case) : predicted := predict (c_tokens c) (c_syms c) (c_dot c).
+
+Definition corr (c : case) : bool :=
+  list_eqb token_eqb (print_min (c_tree c)) (c_tokens c) && matches (model_predict c) (c_obs c).
+
+(* token lists outside the documented language (postfix operators, calls, prefix operators in the
+   middle, unclosed brackets ...): the model against the implementation only *)
+Record tcase := mk_tcase {
+  t_tokens : list token;
+  t_syms : list (string * Z);
+  t_dot : Z;
+  t_obs : observed
+}.
+Definition judge_tokens (c : tcase) : N :=
+  code_of (matches (predict (t_tokens c) (t_syms c) (t_dot c)) (t_obs c)) true.
 
 Definition judge (c : case) : N := code_of (corr c) (prop c).
